@@ -108,7 +108,7 @@ def entry_fields(entry, field_delim="\xFF"):
     relfilepath_ecc = entry[second+len(field_delim):third]
     filesize_ecc = entry[third+len(field_delim):fourth]
     # Ecc stream field (aka ecc blocks)
-    ecc_field = entry[fourth+len(field_delim):] if fourth >= 0 else entry[len(entry):] # if the last field delimiter is missing (entry truncated or corrupted), there is no ecc track: else (find() returning -1) the metadata fields themselves would be taken for the hash/ecc blocks of the file, and with erasures enabled a block of null bytes can then be "repaired" into garbage
+    ecc_field = entry[fourth+len(field_delim):] if min(first, second, third, fourth) >= 0 else entry[len(entry):] # if one of the four field delimiters is missing (entry truncated or corrupted), there is no ecc track (when find() returns -1 the next search starts over from the beginning of the entry and finds an earlier delimiter again, so all four results must be checked): else the metadata fields themselves would be taken for the hash/ecc blocks of the file, and with erasures enabled a block of null bytes can then be "repaired" into garbage
 
     # Note: the filesize is kept as the raw string read from the ecc entry: it may be corrupted, so it must first be checked/repaired with its intra-ecc (on the exact characters that were stored) before being converted to an int
 
